@@ -539,6 +539,19 @@ def _mask(ctx) -> None:
                     if any(len(fc) == 1 and fc[0][1] and fc[0][0][0] == "cmp" and fc[0][0][1] == "Eq" and RK_ in (fc[0][0][2], fc[0][0][3])
                            for fc in found_):
                         exact_first = True
+    # (the same scan written as next((i for i, name in enumerate(names) if name == key), None))
+    for e in srets:
+        for x in subterms(e.term):
+            if x[0] == "call" and x[1] == ("name", "next") and len(x[2]) == 2 and x[2][0][0] == "obj" and x[2][1] == ("const", "NoneType", None):
+                els_ = [ev for ev in ri_.events if ev.kind == "elem" and ev.term == x[2][0] and ev.loops]
+                if len(els_) == 1:
+                    lp_ = ri_.loops[els_[0].loops[-1]]
+                    dom_ = lp_.domain if lp_.domain is not None else lp_.iter
+                    doms_ = list(dom_[1]) if dom_ is not None and dom_[0] == "tuple" else [dom_]
+                    if (names_seq in doms_ or lp_.iter == ("call", ("name", "enumerate"), (names_seq,), ())) and els_[0].value == ("idx", lp_.id):
+                        fc_ = flatten_conds(els_[0].conds[len(lp_.conds):])
+                        if len(fc_) == 1 and fc_[0][1] and fc_[0][0][0] == "cmp" and fc_[0][0][1] == "Eq" and RK_ in (fc_[0][0][2], fc_[0][0][3]):
+                            exact_first = True
     if srets and not exact_first:
         rprobs.append("the position is not looked up by the exact stored name (a scan of the row's name snapshot for `name == key`) first")
     if not any(e.kind == "raise" and e.term[0] == "call" and e.term[1][0] == "name" and "KeyError" in e.term[1][1] for e in str_events):
